@@ -103,6 +103,10 @@ func genCamera(r *core.Rand, sc *Scenario) {
 			sc.OtherHost = true
 		}
 	}
+	// the camera asks for credentials only from SETUP on (hash-derived so that no other choice moves)
+	if sc.User != "" && core.HS(sc.Seed, "c20.lateauth", "", 0)%100 < 35 {
+		sc.LateAuth = true
+	}
 	if sc.SessControl != "" && sc.SessControl != "*" && !strings.HasPrefix(sc.SessControl, "rtsp://"+otherAuthority) {
 		// an absolute session-level control attribute takes precedence over Content-Base
 		sc.OtherHost = false
@@ -274,8 +278,12 @@ func (cam *camera) handle(nc net.Conn) {
 		if req.URL != nil {
 			ustr = req.URL.String()
 		}
+		meth := string(req.Method)
+		if sc.User != "" && sc.LateAuth && req.Method == base.Setup && req.Header["Authorization"] == nil {
+			meth = "SETUP(challenged)" // answered 401 below; the client repeats it with credentials
+		}
 		cam.mu.Lock()
-		cam.seen = append(cam.seen, string(req.Method)+" "+ustr)
+		cam.seen = append(cam.seen, meth+" "+ustr)
 		cam.mu.Unlock()
 		res := &base.Response{StatusCode: base.StatusOK, Header: base.Header{}}
 		if cs, ok := req.Header["CSeq"]; ok {
@@ -285,7 +293,7 @@ func (cam *camera) handle(nc net.Conn) {
 		case base.Options:
 			res.Header["Public"] = base.HeaderValue{"DESCRIBE, SETUP, PLAY, PAUSE, GET_PARAMETER, TEARDOWN"}
 		case base.Describe:
-			if sc.User != "" && req.Header["Authorization"] == nil {
+			if sc.User != "" && !sc.LateAuth && req.Header["Authorization"] == nil {
 				res.StatusCode = base.StatusUnauthorized
 				res.Header["WWW-Authenticate"] = base.HeaderValue{`Digest realm="cam", nonce="abcdef0123456789"`, `Basic realm="cam"`}
 				break
@@ -296,6 +304,11 @@ func (cam *camera) handle(nc net.Conn) {
 			}
 			res.Body = cam.sdp()
 		case base.Setup:
+			if sc.User != "" && sc.LateAuth && req.Header["Authorization"] == nil {
+				res.StatusCode = base.StatusUnauthorized
+				res.Header["WWW-Authenticate"] = base.HeaderValue{`Digest realm="cam", nonce="abcdef0123456789"`, `Basic realm="cam"`}
+				break
+			}
 			var th headers.Transport
 			if err := th.Unmarshal(req.Header["Transport"]); err != nil || th.Protocol != headers.TransportProtocolTCP {
 				res.StatusCode = base.StatusUnsupportedTransport
@@ -428,7 +441,14 @@ func runCamera(w *sys.World, sc *Scenario, summary *map[string]any) {
 			sc.urlNoCreds(), sc.ContentBase, sc.HasCB, sc.SessControl, sc.Controls)
 		nSetup := 0
 		seen := map[string]int{}
-		for _, r := range reqs {
+		skipped := false
+		for ri, r := range reqs {
+			if sc.LateAuth && !skipped && r.Method == "SETUP" && ri+1 < len(reqs) && reqs[ri+1].Method == "SETUP" && reqs[ri+1].URL == r.URL {
+				// the first SETUP is challenged (401) and repeated with credentials: one SETUP for the oracle
+				skipped = true
+				w.Probe("setup_challenged_and_repeated")
+				continue
+			}
 			seen[r.Method]++
 			switch r.Method {
 			case "DESCRIBE":
